@@ -131,9 +131,10 @@ def qsortFB (cmp : List Byte → List Byte → Int) (size : Nat) : Nat → List 
           | none => none
           | some (mem, rs) =>
             -- if (i < base + (nmemb - 1) * size) qsort(i, nmemb - (i - base) / size, size, compar);
+            -- (the `nmemb - (i - base) / size` elements from `i` on are all the bytes from `i` to the
+            -- end of the array this call was given: `mem.length = nmemb * size`)
             if i < (nmemb - 1) * size then
-              let len := (nmemb - i / size) * size
-              (qsortFB cmp size fuel rs ((mem.drop i).take len)).map fun (s, rs) => (mem.take i ++ s ++ (mem.drop i).drop len, rs)
+              (qsortFB cmp size fuel rs (mem.drop i)).map fun (s, rs) => (mem.take i ++ s, rs)
             else some (mem, rs)
 
 /-- `qsort` on bytes: fuel `nmemb + 1` -/
